@@ -63,7 +63,7 @@ func setterLeak(h lib.History) *lib.Mismatch {
 		}
 		v, op := atoiS(f[1]), f[2]
 		links = links || op == "symlink"
-		if _, ok := m.views[v]; !ok || (op != "setuser" && op != "setumask" && op != "chdir") || len(f) < 4 {
+		if _, ok := m.views[v]; !ok || (op != "setuser" && op != "setumask" && op != "chdir" && op != "sub") || len(f) < 4 {
 			m.call(l)
 			if m.dead {
 				return nil
@@ -83,15 +83,19 @@ func setterLeak(h lib.History) *lib.Mismatch {
 				Impl: append([]string{o}, obs...), Index: i}
 		}
 		for w := 0; w < m.nextV; w++ {
-			if w == v {
+			if w == v && op != "sub" {
 				continue
 			}
-			if after, _ := getViewInfo(m, w); after != before[w] {
+			bw, existed := before[w]
+			if !existed {
+				continue // the view made by this very Sub call
+			}
+			if after, _ := getViewInfo(m, w); after != bw {
 				return mk(fmt.Sprintf("%q on view %d changed view %d: before %v, after %v", l, v, w, before[w], after),
 					fmt.Sprintf("view %d before: %v", w, before[w]), fmt.Sprintf("view %d after: %v", w, after))
 			}
 		}
-		if o != "ok" {
+		if o != "ok" || op == "sub" {
 			continue
 		}
 		want, after := before[v], before[v]
